@@ -12,6 +12,8 @@ mod ident;
 mod proptest_impls;
 mod repr;
 mod text;
+#[cfg(aranya_core_verif)]
+pub mod verif;
 
 pub use error::{InvalidIdentifier, InvalidText};
 pub use ident::Identifier;
